@@ -500,7 +500,36 @@ def import_closure(repo, root_mod: str) -> set:
 # path evaluation of a dispatch function for one concrete subject value (R7, shape independent)
 # ---------------------------------------------------------------------------
 
-_FRESH = 0
+def _free_names(node) -> set:
+    """names read in `node` that are not bound by a comprehension / lambda inside it"""
+    out = set()
+
+    def walk(n, bound):
+        if isinstance(n, ast.Name):
+            if n.id not in bound:
+                out.add(n.id)
+            return
+        if isinstance(n, (ast.ListComp, ast.SetComp, ast.GeneratorExp, ast.DictComp)):
+            b = set(bound)
+            for i, g in enumerate(n.generators):
+                walk(g.iter, b if i else bound)
+                b |= {x.id for x in ast.walk(g.target) if isinstance(x, ast.Name)}
+                for c in g.ifs:
+                    walk(c, b)
+            if isinstance(n, ast.DictComp):
+                walk(n.key, b)
+                walk(n.value, b)
+            else:
+                walk(n.elt, b)
+            return
+        if isinstance(n, ast.Lambda):
+            b = bound | {a.arg for a in n.args.posonlyargs + n.args.args + n.args.kwonlyargs}
+            walk(n.body, b)
+            return
+        for c in ast.iter_child_nodes(n):
+            walk(c, bound)
+    walk(node, set())
+    return out
 
 
 class _Subst(ast.NodeTransformer):
@@ -526,12 +555,17 @@ class _Subst(ast.NodeTransformer):
         for k in used:
             v = self.env.get(k)
             if v is not None:
-                incoming |= {x.id for x in ast.walk(v) if isinstance(x, ast.Name)}
+                incoming |= _free_names(v)
         clash = bound & incoming
         if clash:
-            global _FRESH
-            _FRESH += 1
-            ren = {b: f'{b}__r{_FRESH}' for b in clash}
+            taken = {x.id for x in ast.walk(node) if isinstance(x, ast.Name)} | incoming
+            ren = {}
+            for b in sorted(clash):
+                nb = b + '__r'
+                while nb in taken:
+                    nb += 'r'
+                ren[b] = nb
+                taken.add(nb)
             for x in ast.walk(node):
                 if isinstance(x, ast.Name) and x.id in ren:
                     x.id = ren[x.id]
